@@ -9,6 +9,8 @@ import (
 	"path/filepath"
 	"strconv"
 	"strings"
+
+	"github.com/mmcloughlin/avo/attr"
 )
 
 // gen-lean: the translator from /repo sources (and toolchain headers) to Lean
@@ -159,57 +161,32 @@ func evalConst(e ast.Expr, iota int64, env map[string]int64) (int64, bool) {
 }
 
 func init() {
-	// Gen.TextFlags: const block and attrname map of attr/ztextflag.go.
+	// Gen.TextFlags: the attribute-name table, obtained BEHAVIOURALLY from the compiled attr package (the harness
+	// is built against the repo's working tree through the module replace): attr.Attribute(1<<i).Asm() for every
+	// bit i of the 16-bit attribute word.  A bit without a name is printed as its decimal value; anything else is
+	// the flag's name.  No source text of avo is parsed, so moving, renaming or re-shaping the table (init
+	// function, switch, slice, generated differently, ...) cannot break the extraction.
+	//   textflagConsts : (name, value) per named bit        attrname : (value, name) per named bit
 	genLean["TextFlags"] = func(repo string) (string, error) {
-		_, f, err := parseFile(filepath.Join(repo, "attr", "ztextflag.go"))
-		if err != nil {
-			return "", err
-		}
-		names, vals := constBlockInts(f)
-		var b strings.Builder
-		b.WriteString("-- REGENERATED from attr/ztextflag.go by avoh gen-lean TextFlags. Do not edit.\nnamespace Avo.Gen\n")
-		b.WriteString("def textflagConsts : List (String × Nat) := [")
-		for i, n := range names {
-			if i > 0 {
-				b.WriteString(", ")
+		var consts, entries []string
+		for i := 0; i < 16; i++ {
+			v := attr.Attribute(1) << uint(i)
+			s, err := textFlagName(v)
+			if err != nil {
+				return "", err
 			}
-			fmt.Fprintf(&b, "(%s, %d)", leanStr(n), vals[n])
-		}
-		b.WriteString("]\n")
-		// attrname map literal
-		var entries []string
-		ast.Inspect(f, func(n ast.Node) bool {
-			vs, ok := n.(*ast.ValueSpec)
-			if !ok || len(vs.Names) != 1 || vs.Names[0].Name != "attrname" || len(vs.Values) != 1 {
-				return true
+			if s == "" {
+				continue
 			}
-			cl, ok := vs.Values[0].(*ast.CompositeLit)
-			if !ok {
-				return true
-			}
-			for _, el := range cl.Elts {
-				kv := el.(*ast.KeyValueExpr)
-				k, ok := evalConst(kv.Key, 0, vals)
-				if !ok {
-					err = fmt.Errorf("attrname: cannot evaluate key")
-					return false
-				}
-				lit, ok := kv.Value.(*ast.BasicLit)
-				if !ok {
-					err = fmt.Errorf("attrname: non-literal value")
-					return false
-				}
-				s, _ := strconv.Unquote(lit.Value)
-				entries = append(entries, fmt.Sprintf("(%d, %s)", k, leanStr(s)))
-			}
-			return false
-		})
-		if err != nil {
-			return "", err
+			consts = append(consts, fmt.Sprintf("(%s, %d)", leanStr(s), int(v)))
+			entries = append(entries, fmt.Sprintf("(%d, %s)", int(v), leanStr(s)))
 		}
 		if entries == nil {
-			return "", fmt.Errorf("attrname map not found")
+			return "", fmt.Errorf("attr.Attribute(1<<i).Asm() names no bit at all")
 		}
+		var b strings.Builder
+		b.WriteString("-- REGENERATED from the compiled attr package (attr.Attribute(1<<i).Asm(), i < 16) by avoh gen-lean TextFlags. Do not edit.\nnamespace Avo.Gen\n")
+		fmt.Fprintf(&b, "def textflagConsts : List (String × Nat) := [%s]\n", strings.Join(consts, ", "))
 		fmt.Fprintf(&b, "def attrname : List (Nat × String) := [%s]\n", strings.Join(entries, ", "))
 		b.WriteString("end Avo.Gen\n")
 		return b.String(), nil
@@ -239,4 +216,22 @@ func init() {
 		return "-- MEASURED from " + path + " by avoh gen-lean TextFlagH. Do not edit.\nnamespace Avo.Oracle\n" +
 			"def textflagH : List (String × Nat) := [" + strings.Join(entries, ", ") + "]\nend Avo.Oracle\n", nil
 	}
+}
+
+// textFlagName is the name the real attr package prints for the single-bit attribute v ("" when the bit has no
+// name and is printed numerically); a panic of the real code is an extraction error.
+func textFlagName(v attr.Attribute) (name string, err error) {
+	defer func() {
+		if e := recover(); e != nil {
+			name, err = "", fmt.Errorf("attr.Attribute(%d).Asm() panicked: %v", int(v), e)
+		}
+	}()
+	s := v.Asm()
+	if s == strconv.Itoa(int(v)) {
+		return "", nil
+	}
+	if s == "" || strings.ContainsAny(s, "|\n") {
+		return "", fmt.Errorf("attr.Attribute(%d).Asm() = %q: neither a decimal value nor a single flag name", int(v), s)
+	}
+	return s, nil
 }
